@@ -957,6 +957,9 @@ func TestC04(t *testing.T) {
 		if !hasConcrete(st.Violations) {
 			pushRefusedRedelivered("C04")(t, st)
 		}
+		if !hasConcrete(st.Violations) {
+			pushOutcomeRoutingFor("C04")(t, st)
+		}
 	}, profile: profC04, quickSeeds: 40, thoroughSeeds: 1600, nops: 100})
 }
 
@@ -1046,6 +1049,9 @@ func TestC06(t *testing.T) {
 		}
 		if !hasConcrete(st.Violations) {
 			pushRejectedForwarded(t, st)
+		}
+		if !hasConcrete(st.Violations) {
+			pushOutcomeRoutingFor("C06")(t, st)
 		}
 	}, profile: profC06, quickSeeds: 40, thoroughSeeds: 1600, nops: 100, drain: true})
 }
